@@ -30,11 +30,13 @@ def run(idx: ProgramIndex, rep: Report, tier: str):
     rep.rule("C12-2", "the call-time `noise` keyword reaches at most one additive noise term that honours it")
     rep.rule("C12-4", "sibling methods of the base likelihood obtain the noise through _shaped_noise_covar and forward *params/**kwargs to it")
     rep.rule("C12-3", "LikelihoodList pairs member i with argument tuple i (and noise i) and forwards keyword mappings as keywords")
+    rep.rule("C12-5", "no in-place aliasing hazard in the Gaussian likelihoods and noise models (storage/version domain)")
     marginals(idx, rep)
     noise_keyword(idx, rep)
     sibling_forwarding(idx, rep)
     multitask_global_noise(idx, rep)
     noise_first(idx, rep)
+    aliasing(idx, rep)
     list_routing(idx, rep, "LikelihoodList", "likelihoods", "C12-3", 5)
 
 
@@ -427,3 +429,11 @@ def list_routing(idx: ProgramIndex, rep: Report, clsname: str, member_attr: str,
                         probs.append("per-member value `%s` is zipped but not forwarded to the member" % extra)
             rep.add(rule, inst, "%s:%d" % (fi.module.relpath, comp.lineno), not probs, "member i <-> argument tuple i, keywords forwarded with **" if not probs else "; ".join(probs), {})
     rep.floor(rule, "%s delegating comprehensions" % clsname, n, floor)
+
+
+def aliasing(idx: ProgramIndex, rep: Report):
+    from .common_alias import aliasing_obligations
+    funcs = []
+    for c in idx.subclasses(idx.find_class("_GaussianLikelihoodBase")) + idx.subclasses(idx.find_class("Noise")) + [idx.find_class("FixedGaussianNoise"), idx.find_class("LikelihoodList")]:
+        funcs += list(c.methods.values())
+    aliasing_obligations(idx, rep, "C12-5", funcs, 30, "likelihood / noise-model methods interpreted")
